@@ -13,8 +13,12 @@ let value = u8::from_str_radix(hex, 16).with_context(..)?;
 
 `decode…` below is the decoder **without** step (L) (nibbles are read from the bytes; a
 non-hex byte is an error) — the behaviour `decode_total` is about.  `legacy…` keeps step (L)
-with a third outcome `panic`; it is the mechanism model of the unchanged code and the
-subject of the negative witness.
+with a third outcome `panic`; it is the mechanism model of the ORIGINAL code and the subject
+of the negative witness.  Since /repo commit 0bc4e6f step (L) reads
+`from_utf8(chunk).map_err(|_| anyhow!("invalid cursor: non-hex character …"))?`: `repaired…`
+mirrors that two-step loop literally (UTF-8 test ⇒ error, then the radix parse) and is the
+mechanism model of the code as it exists now; it has the same outcome as `decode…` on every
+input (`Props/C16`: `repaired_eq_decode`).
 
 `u8::from_str_radix` accepts one leading `+` (std behaviour: `"+f"` parses to 15); whether a
 decoder keeps that is the `plus` parameter — every theorem holds for both values.
@@ -81,6 +85,21 @@ def legacyPairs (plus : Bool) : List Nat → Out (List Nat)
       | some v => (legacyPairs plus r).map (v :: ·)
   | _ => .ok []
 
+/-- the loop since 0bc4e6f: a chunk that is not UTF-8 on its own is an error, then the radix parse -/
+def repairedPairs (plus : Bool) : List Nat → Out (List Nat)
+  | a :: b :: r =>
+    if !utf8Ok2 a b then .err "invalid cursor: non-hex character"
+    else
+      match pairVal plus a b with
+      | none => .err "decoding cursor: not a hex byte"
+      | some v => (repairedPairs plus r).map (v :: ·)
+  | _ => .ok []
+
+/-- forget the wording of an error (the code has two messages for "not hex") -/
+def Out.forget {α : Type} : Out α → Out α
+  | .err _ => .err ""
+  | o => o
+
 /-- big-endian value of a byte list -/
 def be (bs : List Nat) : Nat := bs.foldl (fun acc b => acc * 256 + b) 0
 
@@ -129,6 +148,16 @@ def legacyScore (plus : Bool) (raw : List Nat) : Out ScoreCursor :=
   if raw.length ≠ cursorHexLen then .err "invalid cursor length"
   else bindOut (legacyPairs plus raw) parseScore
 
+/-- `PaginationCursor::decode` as it is since 0bc4e6f -/
+def repairedScore (plus : Bool) (raw : List Nat) : Out ScoreCursor :=
+  if raw.length ≠ cursorHexLen then .err "invalid cursor length"
+  else bindOut (repairedPairs plus raw) parseScore
+
+/-- `hex_decode` as it is since 0bc4e6f -/
+def repairedHexDecode (plus : Bool) (raw : List Nat) : Out (List Nat) :=
+  if raw.length % 2 ≠ 0 then .err "invalid cursor: expected even-length hex string"
+  else repairedPairs plus raw
+
 /-- `hex_decode` (sort cursors) reading nibbles from bytes -/
 def hexDecode (plus : Bool) (raw : List Nat) : Out (List Nat) :=
   if raw.length % 2 ≠ 0 then .err "invalid cursor: expected even-length hex string"
@@ -139,9 +168,9 @@ def legacyHexDecode (plus : Bool) (raw : List Nat) : Out (List Nat) :=
   if raw.length % 2 ≠ 0 then .err "invalid cursor: expected even-length hex string"
   else legacyPairs plus raw
 
-/-- score fast path of `decode_cursor`: decode, then the generation test -/
+/-- score fast path of `decode_cursor` (code since 0bc4e6f): decode, then the generation test -/
 def decodeCursorFast (plus : Bool) (raw : List Nat) (manifestGeneration : Nat) : Out ScoreCursor :=
-  bindOut (decodeScore plus raw) fun c =>
+  bindOut (repairedScore plus raw) fun c =>
     if c.generation ≠ manifestGeneration then .err "stale cursor for this index generation" else .ok c
 
 /-- lower-case hex of one byte / of a byte list (`hex_encode`, `PaginationCursor::encode`) -/
